@@ -31,9 +31,15 @@ def main():
     meta = json.load(open(os.path.join(d, "meta.json")))
     props = (a.props.split(",") if a.props else [meta["property"]])
     head = sh("git -C /repo rev-parse HEAD").stdout.strip()
-    if not os.path.isdir(WT):
-        sh("git -C /repo worktree add -q --detach %s HEAD" % WT)
-    sh("git -C %s checkout -q -- . && git -C %s checkout -q --detach %s" % (WT, WT, head))
+    # a private scratch worktree per invocation (several seed tests may run at once); removed at the end
+    global WT
+    import tempfile
+    WT = tempfile.mkdtemp(prefix="pv_mut_", dir=os.environ.get("VERIF_TMP", "/var/tmp"))
+    os.rmdir(WT)
+    r0 = sh("git -C /repo worktree add -q --detach %s %s" % (WT, head))
+    if r0.returncode != 0:
+        print(r0.stderr)
+        return 2
     res = {"seed": os.path.relpath(d, VERIF), "repo_head": head}
     env = "PYTHONPATH=%s" % WT
     r = sh("cd %s && %s /venv/bin/python -B %s/demo.py" % (d, env, d))
@@ -43,6 +49,7 @@ def main():
     if r.returncode != 0:
         res["error"] = r.stderr[-500:]
         print(json.dumps(res, indent=1))
+        sh("git -C /repo worktree remove --force %s" % WT)
         return 1
     try:
         r = sh("cd %s && %s /venv/bin/python -B %s/demo.py" % (d, env, d))
@@ -57,7 +64,7 @@ def main():
             lines = [l for l in r.stdout.splitlines() if l.startswith(("VIOLATION", "OK ", "KNOWN-FINDING"))]
             res["checks"][p] = {"exit": r.returncode, "verdict": lines[:3], "wall_s": round(time.time() - t0)}
     finally:
-        sh("git -C %s checkout -q -- ." % WT)
+        sh("git -C /repo worktree remove --force %s" % WT)
     meta["confirmed_by_coordinator"] = res
     json.dump(meta, open(os.path.join(d, "meta.json"), "w"), indent=1)
     print(json.dumps(res, indent=1))
